@@ -46,7 +46,8 @@ def check_gcs(chk, ex, found):
         _wrappers.row(chk, name + ":no-exception", len(rets) == len(outs) and rets, None, found)
         cells = list(itertools.product(range(d), range(w)))
         cnt_t = {c: z3.Int("elem_%s[%d,%d]" % (cnt.data, c[0], c[1])) for c in cells}
-        key_t = {c: z3.Int("cellkey_%s[%d,%d]" % (lhh.data, c[0], c[1])) for c in cells}
+        kl = f0["key_lens"]
+        key_t = {c: X.cellkey(lhh.data, list(c), z3.Int("elem_%s[%d,%d]" % (kl.data, c[0], c[1]))) for c in cells}  # bytes of the cell cut at its stored length
         for i, (o, e) in enumerate(rets):
             f = o.state.objs[sref.oid]["fields"]
             cs = f.get("candidate_set")
@@ -64,7 +65,7 @@ def check_gcs(chk, ex, found):
             # every stored entry belongs to some non-empty cell
             prov = True
             for k_, v_ in ent:
-                prov = prov and any(z3.eq(k_, key_t[c]) for c in cells)
+                prov = prov and any(z3.eq(z3.simplify(k_), z3.simplify(key_t[c])) for c in cells)
             _wrappers.row(chk, "%s:path%d:only-stored-identities" % (name, i), prov, None, found)
             # kernel calls: own tables, key of the cell, its stored length
             for kc in _wrappers.kernel_calls(e):
